@@ -94,6 +94,9 @@ package objects
 //@   at[allocated] call objects.Queue.DecAllocatedResource#1: assert arg0 == sq && (forall t Key :: rv(arg1, t) == rv(app.allocatedResource, t))
 //@   at[placeholder] call objects.Queue.DecAllocatedResource#2: assert arg0 == sq && (forall t Key :: rv(arg1, t) == rv(app.allocatedPlaceholder, t))
 //@   ensures[untracked] old(app.ApplicationID in sq.applications) ==> (forall q *Queue :: anc(sq, q) ==> !q.allocatingAcceptedApps[app.ApplicationID])
+//@   ensures[bothshares] old(app.ApplicationID in sq.applications) && old((exists t Key :: rv(app.allocatedResource, t) != 0) && (exists u Key :: rv(app.allocatedPlaceholder, u) != 0)) ==> ncalls(objects.Queue.DecAllocatedResource) == 2
+//@   ensures[anyshare] old(app.ApplicationID in sq.applications) && old((exists t Key :: rv(app.allocatedResource, t) != 0) || (exists u Key :: rv(app.allocatedPlaceholder, u) != 0)) ==> ncalls(objects.Queue.DecAllocatedResource) >= 1
+//@   ensures[pendingshare] old(app.ApplicationID in sq.applications) && old(exists t Key :: rv(app.pending, t) != 0) ==> ncalls(objects.Queue.decPendingResource) == 1
 
 // same gate on the reserved path: stated from the property (room on every ancestor), implied by canRunApp's contract
 //@ func (sq *Queue) TryReservedAllocate(iterator func() NodeIterator) (res *AllocationResult)
@@ -772,12 +775,12 @@ package objects
 // a resize of an ask/allocation moves exactly one ledger by the difference: pending for an outstanding ask, the total
 // the allocation is booked into (placeholder or real) for a bound one, and the queue chain / user by the same delta
 //@ func (sa *Application) UpdateAllocationResources(alloc *Allocation, isQuotaPreemptionEnabled bool) (err error)
-//@   props C03 C05
+//@   props C03 C05 C06
 //@   mode nopanic=off
-//@   ensures[boundreal] err == nil && old(sa.requests[alloc.allocationKey]) != nil && old(sa.requests[alloc.allocationKey].allocated) && !old(sa.requests[alloc.allocationKey].placeholder) ==> (forall t Key :: rv(sa.allocatedResource, t) == clamp64(old(rv(sa.allocatedResource, t)) + clamp64(rv(alloc.allocatedResource, t) - old(rv(sa.requests[alloc.allocationKey].allocatedResource, t)))))
-//@   ensures[boundph] err == nil && old(sa.requests[alloc.allocationKey]) != nil && old(sa.requests[alloc.allocationKey].allocated) && old(sa.requests[alloc.allocationKey].placeholder) ==> (forall t Key :: rv(sa.allocatedPlaceholder, t) == clamp64(old(rv(sa.allocatedPlaceholder, t)) + clamp64(rv(alloc.allocatedResource, t) - old(rv(sa.requests[alloc.allocationKey].allocatedResource, t))))) && (forall t Key :: rv(sa.allocatedResource, t) == old(rv(sa.allocatedResource, t)))
-//@   ensures[outstanding] err == nil && old(sa.requests[alloc.allocationKey]) != nil && !old(sa.requests[alloc.allocationKey].allocated) ==> (forall t Key :: rv(sa.pending, t) == clamp64(old(rv(sa.pending, t)) + clamp64(rv(alloc.allocatedResource, t) - old(rv(sa.requests[alloc.allocationKey].allocatedResource, t)))))
-//@   ensures[refused] err != nil ==> sa.pending == old(sa.pending) && sa.allocatedResource == old(sa.allocatedResource) && sa.allocatedPlaceholder == old(sa.allocatedPlaceholder)
+//@   ensures[boundreal:C03,C06] err == nil && old(sa.requests[alloc.allocationKey]) != nil && old(sa.requests[alloc.allocationKey].allocated) && !old(sa.requests[alloc.allocationKey].placeholder) ==> (forall t Key :: rv(sa.allocatedResource, t) == clamp64(old(rv(sa.allocatedResource, t)) + clamp64(rv(alloc.allocatedResource, t) - old(rv(sa.requests[alloc.allocationKey].allocatedResource, t)))))
+//@   ensures[boundph:C03,C06] err == nil && old(sa.requests[alloc.allocationKey]) != nil && old(sa.requests[alloc.allocationKey].allocated) && old(sa.requests[alloc.allocationKey].placeholder) ==> (forall t Key :: rv(sa.allocatedPlaceholder, t) == clamp64(old(rv(sa.allocatedPlaceholder, t)) + clamp64(rv(alloc.allocatedResource, t) - old(rv(sa.requests[alloc.allocationKey].allocatedResource, t))))) && (forall t Key :: rv(sa.allocatedResource, t) == old(rv(sa.allocatedResource, t)))
+//@   ensures[outstanding:C03] err == nil && old(sa.requests[alloc.allocationKey]) != nil && !old(sa.requests[alloc.allocationKey].allocated) ==> (forall t Key :: rv(sa.pending, t) == clamp64(old(rv(sa.pending, t)) + clamp64(rv(alloc.allocatedResource, t) - old(rv(sa.requests[alloc.allocationKey].allocatedResource, t)))))
+//@   ensures[refused:C03] err != nil ==> sa.pending == old(sa.pending) && sa.allocatedResource == old(sa.allocatedResource) && sa.allocatedPlaceholder == old(sa.allocatedPlaceholder)
 //@   at[usercharged:C05,C03] call objects.Application.incUserResourceUsage#1: assert arg0 == sa && arg1 == delta
 //@   at[queuecharged:C03] call objects.Queue.IncAllocatedResource#1: assert arg0 == sa.queue && arg1 == delta
 //@   ensures[userfollows:C05,C03] err == nil && old(sa.requests[alloc.allocationKey]) != nil && old(sa.requests[alloc.allocationKey].allocated) && (exists t Key :: rv(alloc.allocatedResource, t) != old(rv(sa.requests[alloc.allocationKey].allocatedResource, t))) ==> ncalls(objects.Application.incUserResourceUsage) == 1 && ncalls(objects.Queue.IncAllocatedResource) == 1
@@ -1524,3 +1527,26 @@ package objects
 //@   at[up] call objects.Queue.DecPreemptingResource#1: assert arg0 == sq.parent && arg1 == alloc
 //@   at[own] call resources.Sub#1: assert arg0 == sq.preemptingResource && arg1 == alloc
 //@   ensures[both] sq != nil ==> ncalls(objects.Queue.DecPreemptingResource) == 1 && ncalls(resources.Sub) == 1
+
+// ================================================================ round f additions
+
+// the maximum (and guaranteed share) in force is exactly the one handed in: a usable value replaces the old one as the
+// same object - every type it defines, including a type limited to 0, is then enforced - and an unusable one clears it
+//@ func (sq *Queue) setResources(guaranteedResource, maxResource *resources.Resource)
+//@   props C02
+//@   mode nopanic=off
+//@   ensures[maxset] ((forall t Key :: rv(maxResource, t) >= 0) && (exists t Key :: rv(maxResource, t) > 0)) ==> sq.maxResource == maxResource
+//@   ensures[maxcleared] !((forall t Key :: rv(maxResource, t) >= 0) && (exists t Key :: rv(maxResource, t) > 0)) ==> sq.maxResource == nil
+//@   ensures[guarset] ((forall t Key :: rv(guaranteedResource, t) >= 0) && (exists t Key :: rv(guaranteedResource, t) > 0)) ==> sq.guaranteedResource == guaranteedResource
+//@   ensures[guarcleared] !((forall t Key :: rv(guaranteedResource, t) >= 0) && (exists t Key :: rv(guaranteedResource, t) > 0)) ==> sq.guaranteedResource == nil
+
+// the excess a quota-change run may claim is computed against usage NET of what is already being preempted: victims in
+// flight are not claimed a second time; only types that are over the maximum take part
+//@ func (qpc *QuotaPreemptionContext) setPreemptableResources()
+//@   props C08
+//@   sweep
+//@   mode nopanic=off
+//@   at[usage] call resources.SubOnlyExisting#1: assert arg0 == qpc.allocatedResource && arg1 == qpc.preemptingResource
+//@   at[netofinflight] call resources.SubOnlyExisting#2: assert arg0 == qpc.maxResource && (forall t Key :: has(qpc.allocatedResource, t) ==> rv(arg1, t) == clamp64(rv(qpc.allocatedResource, t) - rv(qpc.preemptingResource, t)))
+//@   at[capped] call resources.ComponentWiseMinOnlyExisting#1: assert arg0 == netPreemptableResource && arg1 == netParentPreemptableResource
+//@   ensures[computed] qpc.preemptableResource != old(qpc.preemptableResource) ==> ncalls(resources.SubOnlyExisting) == 2 && ncalls(resources.ComponentWiseMinOnlyExisting) == 1
